@@ -20,9 +20,21 @@ def prop(pid, **kw):
 
 MANAGER_STEPS = dict(harness='c05_manager_steps',
                      covers=['dial.ok', 'dial.err', 'dial_address.ok', 'dial_address.err', 'open.opened', 'open.failed', 'dialed.accept',
-                             'dialed.failure', 'inbound.accept', 'inbound.limit', 'closed'],
+                             'dialed.failure', 'inbound.accept', 'inbound.admitted', 'closed'],
                      min_paths=1000, split={'quick': 5, 'thorough': 6}, params={'quick': {'steps': 3}, 'thorough': {'steps': 4}},
                      conform={'quick': 60, 'thorough': 500}, nvals=30)
+
+MANAGER_ONESTEP = dict(harness='c05_manager_steps', name='c05_manager_onestep',
+                       covers=['arbitrary-start', 'dial.ok', 'dial.err', 'dial_address.ok', 'dial_address.err', 'open.opened', 'open.failed',
+                               'dialed.accept', 'dialed.reject', 'dialed.reject.limit', 'dialed.failure', 'inbound.accept', 'inbound.reject',
+                               'inbound.reject.limit', 'inbound.admitted', 'inbound.limit', 'closed'],
+                       min_paths=5000, split={'quick': 6, 'thorough': 7},
+                       params={'quick': {'steps': 1, 'arbitrary_start': 1}, 'thorough': {'steps': 2, 'arbitrary_start': 1}},
+                       conform={'quick': 60, 'thorough': 500}, nvals=40)
+
+ADDRESS_SHAPES = dict(harness='c05_address_shapes',
+                      covers=['shape.dial_address.accepted', 'shape.dial_address.refused', 'shape.known.stored', 'shape.known.refused'],
+                      min_paths=5000, split=4, conform={'quick': 100, 'thorough': 2000}, nvals=8)
 
 prop('C05',
      explanation='Bounded symbolic execution (mirsym: MIR -> z3) of the real transport-manager dial/connection handlers from symbolic '
@@ -35,6 +47,8 @@ prop('C05',
          dict(harness='c05_dial_address', covers=['c05.dial.accepted', 'c05.dial.refused'], min_paths=3, split=0,
               conform={'quick': 60, 'thorough': 500}, nvals=8),
          MANAGER_STEPS,
+         MANAGER_ONESTEP,
+         ADDRESS_SHAPES,
      ],
      bounds={'peers': 1, 'connection ids': '64-bit symbolic', 'limits': 'None/1/2 per direction', 'steps': 1},
      outside=['TransportManager::next (tokio::select! loop)', 'TCP transport internals (sockets, timers)'],
@@ -106,11 +120,39 @@ prop('C19',
      )
 
 prop('C20',
-     explanation='Symbolic execution of the real batching step with solver-chosen block sizes and batch limit against a reference walk.',
+     explanation='Symbolic execution of the real receive-side block conversion (prefix parser, hash selection, CID construction) over structured '
+                 'and damaged prefixes with solver-chosen 64-bit fields, and of the real batching step with solver-chosen block sizes and batch limit, '
+                 'each against a reference in the harness.',
      units=[
          dict(harness='c20_batching', covers=['c20.batch'], min_paths=10, split=0,
               conform={'quick': 100, 'thorough': 1000}, nvals=12),
+         dict(harness='c20_block_cid', covers=['c20.delivered', 'c20.dropped'], min_paths=1000, split=6,
+              conform={'quick': 100, 'thorough': 2000}, nvals=10),
      ],
-     bounds={'blocks': '1..3', 'block size': '<= 2^23 symbolic', 'batch limit': '<= 2^22 symbolic'},
+     bounds={'blocks': '1..3', 'block size': '<= 2^23 symbolic', 'batch limit': '<= 2^22 symbolic',
+             'prefix': '4 varints (version 0..2, codec/hash type 64-bit symbolic, advertised length 0..256) + junk/truncation', 'block data': '3 concrete bytes'},
      outside=['hash functions', 'prost encoded_len'],
+     )
+
+prop('C10',
+     explanation='Symbolic execution of the real AddressStore (insert from an arbitrary store at any capacity, addresses(limit)) against a '
+                 'reference model, and of add_known_address / dial / dial_address over every structured multiaddress of up to 5 components.',
+     units=[
+         dict(harness='c10_store_insert', covers=['c10.insert.existing', 'c10.insert.room', 'c10.insert.full.dropped', 'c10.insert.full.displaced'],
+              min_paths=1000, split=5, conform={'quick': 100, 'thorough': 2000}, nvals=16),
+         dict(harness='c10_store_addresses', covers=['c10.addresses'], min_paths=200, split=4, conform={'quick': 100, 'thorough': 2000}, nvals=12),
+         ADDRESS_SHAPES,
+     ],
+     bounds={'store capacity': '1..3 (code is parametric in max_capacity; AddressStore::new() uses 64)', 'address universe': 5,
+             'scores': '32-bit symbolic for stored records', 'address shapes': '<= 5 components from a 11 x 9^4 alphabet'},
+     outside=['byte-level multiaddr parsing', 'DNS resolution', 'websocket/quic address forms (features off)'],
+     )
+
+prop('C06',
+     explanation='Bounded model checking of the real ConnectionLimits / PeerState / transport-manager handlers against a ledger of live '
+                 'connections: every k-step history from a fresh manager and every single step from an arbitrary invariant-satisfying state.',
+     units=[MANAGER_STEPS, MANAGER_ONESTEP],
+     bounds={'peers': 2, 'limits': 'inbound None/0/1, outbound None/1/2', 'history steps': 'quick 3, thorough 4', 'one-step': 'quick 1, thorough 2 steps from an arbitrary state',
+             'ghost connections of unmodelled peers': 'inbound 0..1, outbound 0..2'},
+     outside=['accept_pending/reject_pending socket handling inside the transports', 'TransportManager::next glue (replicated in the harness)'],
      )
